@@ -903,6 +903,9 @@ func (engine *Engine) readConnBlocking(conn *Conn, parser *Parser, decrease func
 		readBufferPool.Free(pbuf)
 		if !conn.Trasfered {
 			parserCloser.CloseAndClean(err)
+			// the reader is the owner of the connection: nobody else
+			// would close the descriptor.
+			_ = conn.Close()
 		}
 		engine.mux.Lock()
 		switch vt := conn.Conn.(type) {
